@@ -5,6 +5,7 @@ import (
 	"fmt"
 
 	pgs "github.com/lyft/protoc-gen-star/v2"
+	"google.golang.org/protobuf/proto"
 )
 
 // ---- C06: read accessors are pure ----
@@ -71,18 +72,60 @@ func (v descendAll) VisitMethod(e pgs.Method) (pgs.Visitor, error)       { retur
 func accessorsOf(kind string) []string {
 	switch kind {
 	case "file":
-		return []string{"imports", "transitive", "dependents", "unused", "messages", "allMessages", "enums", "allEnums", "services", "exts", "walk"}
+		return []string{"imports", "transitive", "dependents", "unused", "messages", "allMessages", "enums", "allEnums", "services", "exts", "walk", "syntax", "desc"}
 	case "msg":
-		return []string{"messages", "mapEntries", "fields", "oneofs", "enums", "exts", "allMessages", "allEnums", "nonOneof", "oneofFields", "synthFields", "realOneofs", "imports", "deps", "dpts", "walk"}
+		return []string{"messages", "mapEntries", "fields", "oneofs", "enums", "exts", "allMessages", "allEnums", "nonOneof", "oneofFields", "synthFields", "realOneofs", "imports", "deps", "dpts", "walk", "desc"}
 	case "enum":
-		return []string{"values", "edpts"}
+		return []string{"values", "edpts", "desc"}
 	case "service":
-		return []string{"methods", "imports", "walk"}
+		return []string{"methods", "imports", "walk", "desc"}
 	}
 	return nil
 }
 
+// pristineOf: the declaration's descriptor in a copy of the request that pgs never saw.
+func (r *astRun) pristineOf(rf ref) proto.Message {
+	if r.pristine == nil {
+		r.pristine = map[string]proto.Message{}
+		for d, dr := range buildWorld(r.w).refOf {
+			if m, ok := d.(proto.Message); ok {
+				r.pristine[dr.key()] = m
+			}
+		}
+	}
+	return r.pristine[rf.key()]
+}
+
 func callAccessor(r *astRun, e pgs.Entity, acc string) []ref {
+	switch acc {
+	case "desc":
+		// Descriptor() read by content: still what the request said ([1]) or not ([0])
+		var d proto.Message
+		switch x := e.(type) {
+		case pgs.File:
+			d = x.Descriptor()
+		case pgs.Message:
+			d = x.Descriptor()
+		case pgs.Enum:
+			d = x.Descriptor()
+		case pgs.Service:
+			d = x.Descriptor()
+		}
+		if want := r.pristineOf(r.refOf(e)); d != nil && want != nil && proto.Equal(d, want) {
+			return []ref{{0, []int{1}}}
+		}
+		return []ref{{0, []int{0}}}
+	case "syntax":
+		if f, ok := e.(pgs.File); ok {
+			switch f.Syntax() {
+			case pgs.Proto3:
+				return []ref{{0, []int{3}}}
+			case pgs.Proto2:
+				return []ref{{0, []int{2}}}
+			}
+			return []ref{{0, []int{0}}}
+		}
+	}
 	switch x := e.(type) {
 	case pgs.File:
 		switch acc {
@@ -368,6 +411,10 @@ func (c06Engine) Gen(g *Gen) {
 			if lr.Intn(4) == 0 { // immediate repetition
 				w.Ops = append(w.Ops, opJ{c.rf, c.acc})
 			}
+		}
+		// and at the end every file's descriptor read by content, after its syntax was asked for
+		for fi := range w.Files {
+			w.Ops = append(w.Ops, opJ{ref{fi, []int{}}, "syntax"}, opJ{ref{fi, []int{}}, "desc"})
 		}
 		countWorld(g, w)
 		g.Emit(w)
